@@ -153,7 +153,7 @@ CHECKS['C15'] = dict(
     parts=[part('TestC15', 1500, 12000, qshards=2), part('TestC15Load', 6, 30, qshards=1, tshards=8)],
     rule=('a case is 1-4 rounds; a round is non-trivial iff two multi-key requests share >= 2 keys in different relative order and their executions overlapped in time; '
           'sustained-load cases count as one each; distinct = sha256 of the case JSON'),
-    essential=['overlapping-batches-sharing-keys-in-different-order', 'sustained-load-requests'],
+    essential=['overlapping-batches-sharing-keys-in-different-order', 'sustained-load-requests', 'request-naming-a-key-twice'],
     assumptions=['timing only affects how often a broken implementation is caught, never the verdict on a correct one'],
 )
 
@@ -205,7 +205,7 @@ CHECKS['C12'] = dict(
     parts=[part('TestC12', 120, 1500, qshards=2)],
     rule=('a case is one generation request on a fresh cluster; non-trivial iff it succeeded with n >= 3 or was refused for violating n/2 < t <= n; distinct = sha256 of the case JSON'),
     essential=['successful-generation', 'refused-outside-bound', 'initiator-not-a-participant', 'success-with-steered-commit-order', 'tampered-commit-reply-delivered',
-               'ids-ge2^63', 'ids-near2^64', 'signature-subsets-checked'],
+               'ids-ge2^63', 'ids-near2^64', 'signature-subsets-checked', 'success-without-request-passphrase'],
     assumptions=['herumi BLS is trusted'],
 )
 
@@ -274,7 +274,7 @@ CHECKS['C14'] = dict(
     parts=[part('TestC14', 120, 1500, qshards=2)],
     rule=('a case is one generated account plus one routed conflicting pair; non-trivial iff the account was generated and both duties were offered to at least t instances each; distinct = sha256 of the case JSON'),
     essential=['both-duties-offered-to-a-threshold-of-instances', 'one-duty-reached-threshold', 'concurrent-delivery', 'conflict-double-vote', 'conflict-a-surrounds-b',
-               'conflict-b-surrounds-a', 'conflict-two-blocks', 'generation-refused', 'instance-reached-over-single-and-batch-calls'],
+               'conflict-b-surrounds-a', 'conflict-two-blocks', 'generation-refused', 'instance-reached-over-single-and-batch-calls', 'instance-restarted-between-deliveries'],
     assumptions=['herumi BLS is trusted'],
 )
 
@@ -341,7 +341,7 @@ CHECKS['C19'] = dict(
     level_note='The TLS library is trusted; what is exercised is configuration (client-auth mode, CA pool) and identity extraction. Certificates are minted relative to the current time with +-1 h / +-24 h windows.',
     parts=[part('TestC19', 500, 5000, qshards=2)],
     rule=('a case is 1-4 calls on fresh connections; non-trivial iff it contains a must-refuse call bearing a permitted or peer name, or a served call whose CN and SAN differ; distinct = sha256 of the case JSON'),
-    essential=['calls-that-must-be-refused', 'must-refuse-calls-bearing-a-permitted-name', 'accepted-credential-served', 'served-calls-with-cn-and-san-differing', 'served-calls-with-an-extra-certificate-naming-someone-else',
+    essential=['calls-that-must-be-refused', 'must-refuse-calls-bearing-a-permitted-name', 'accepted-credential-served', 'served-calls-with-cn-and-san-differing', 'served-calls-with-an-extra-certificate-naming-someone-else', 'served-calls-claiming-another-name-in-metadata',
                'cred:plaintext/ca', 'cred:tls-no-cert/ca', 'cred:tls-cert/other-ca', 'cred:tls-cert/self-signed', 'cred:tls-cert/ca'] +
               ['method:' + m for m in ['Signer/Sign', 'Signer/Multisign', 'Signer/SignBeaconAttestation', 'Signer/SignBeaconAttestations', 'Signer/SignBeaconProposal', 'Lister/ListAccounts',
                'AccountManager/Unlock', 'AccountManager/Lock', 'AccountManager/Generate', 'WalletManager/Unlock', 'WalletManager/Lock', 'DKG/Prepare', 'DKG/Execute', 'DKG/Commit', 'DKG/Abort', 'DKG/Contribute']],
